@@ -124,12 +124,15 @@ Definition src_field_dom (f : field) : bool :=
   | Some i => conv_field (unraw i) && c01_rename_ok (serde_nv (f_attrs f) (lit "rename"))
   | None => false
   end.
+(* cfg attributes (which decide presence: C13 / C03) parse as meta lists, on every member *)
 Definition src_fields_dom (container_attrs : list attr) (l : list field) : bool :=
-  c01_rule_ok (serde_nv container_attrs (lit "rename_all")) && forallb src_field_dom (kept_fields l).
+  c01_rule_ok (serde_nv container_attrs (lit "rename_all")) && forallb (fun f => cfg_parsable (f_attrs f)) l &&
+  forallb src_field_dom (kept_fields l).
 Definition src_dom (it : item) : bool :=
   match it with
   | IStruct attrs _ _ (FNamed l) => src_fields_dom attrs l
   | IEnum _ _ _ vs =>
+    forallb (fun v => cfg_parsable (v_attrs v)) vs &&
     forallb (fun v => match v_fields v with FNamed l => src_fields_dom (v_attrs v) l | _ => true end) (kept_variants vs)
   | _ => true
   end.
@@ -161,16 +164,22 @@ Definition known_C01 (l : lang) (expected : list (list str)) : option string := 
 (* facet 1: the keys bound by each member list are exactly the expected keys, in order *)
 Definition keys_group (expected : list str) (ms : list member) : bool := c01_strs_eqb (map mb_key ms) expected.
 (* facet 2: a member whose key is NOT carried by an explicit binding (quoted property, @SerialName,
-   CodingKeys raw value, json tag, pydantic alias) declares the key itself as its identifier *)
-Definition binding_ok (m : member) : bool :=
-  match mb_binding m with BName => str_eqb (mb_name m) (mb_key m) | _ => true end.
-Definition binding_group (ms : list member) : bool := forallb binding_ok ms.
+   CodingKeys raw value, json tag, pydantic alias) declares the key itself as its identifier, and that
+   identifier has no '-' (TypeScript, Kotlin, Swift and Scala build the identifier from the key; Go
+   always writes a tag, Python builds the identifier from the Rust identifier) *)
+Definition c01_name_from_key (l : lang) : bool := match l with Go | Python => false | _ => true end.
+Definition binding_ok (l : lang) (m : member) : bool :=
+  match mb_binding m with
+  | BName => str_eqb (mb_name m) (mb_key m) && (negb (c01_name_from_key l) || negb (c01_has_dash (mb_name m)))
+  | _ => true
+  end.
+Definition binding_group (l : lang) (ms : list member) : bool := forallb (binding_ok l) ms.
 
 Definition good_keys_C01 (expected : list (list str)) (gs : list (list member)) : bool := c01_all2 keys_group expected gs.
-Definition good_binding_C01 (gs : list (list member)) : bool := forallb binding_group gs.
+Definition good_binding_C01 (l : lang) (gs : list (list member)) : bool := forallb (binding_group l) gs.
 
-Definition good_groups_C01 (expected : list (list str)) (gs : list (list member)) : bool :=
-  good_keys_C01 expected gs && good_binding_C01 gs.
+Definition good_groups_C01 (l : lang) (expected : list (list str)) (gs : list (list member)) : bool :=
+  good_keys_C01 expected gs && good_binding_C01 l gs.
 
-Definition good_C01 (expected : list (list str)) (ds : list decl) : bool :=
-  good_groups_C01 expected (obs_groups ds).
+Definition good_C01 (l : lang) (expected : list (list str)) (ds : list decl) : bool :=
+  good_groups_C01 l expected (obs_groups ds).
